@@ -146,7 +146,8 @@ def shape_map_items(rnd, T, classes, wildcards=False):
     spell = [rnd.choice(["bracket", "bracket", "prefixed"]) for _ in range(nlabels)]
     for i in range(rnd.randint(1, 4)):
         li = i if i < nlabels and rnd.random() < .7 else rnd.randrange(nlabels)
-        label = M.EX + "shapes/L%d" % li
+        # (a label spelled as a prefixed name lives in a namespace of the dictionary the case passes)
+        label = (gen.EX2 if spell[li] == "prefixed" else M.EX + "shapes/") + "L%d" % li
         it = {"label": label, "labelSpelling": spell[li],
               "spelling": rnd.choice(["bracket", "prefixed", "a"])}
         r = rnd.random()
@@ -203,8 +204,18 @@ def general_cases(rnd, n, prefix, targets=True, reports=True, ors=False, rich=Tr
         cfg.update(fixed)
         if not any(it for it in cfg.get("items", [])) and cfg.get("mode") == "shapemap":
             cfg["mode"] = "all"
-        cases.append(gen.case("%s%d" % (prefix, i), T, **cfg))
+        cases.append(via_channel(rnd, gen.case("%s%d" % (prefix, i), T, **cfg), T))
     return cases
+
+
+def via_channel(rnd, case, T, p=.15):
+    """now and then the graph reaches the library through rdflib (a Turtle or RDF/XML text, a Graph object) instead of an N-Triples
+    string: what a property says about a graph does not depend on how the graph was written down (IRI-node graphs: rdflib renames
+    blank nodes)"""
+    if rnd.random() < p and not any(t[0] == "BNode" for s, _p, o in T for t in (s, o)):
+        from harness import channels
+        case["channel"] = rnd.choice(["turtle", "rdflib", "xml" if channels.xml_expressible(T) else "turtle"])
+    return case
 
 
 def strict_cases(rnd, n, prefix):
@@ -220,7 +231,7 @@ def strict_cases(rnd, n, prefix):
                 T.insert(rnd.randint(0, len(T)), t)
         cfg = dict(allCompliant=True, keepLess=True, thr=[0, 1], discardUseless=rnd.random() < .5,
                    allowOpt=rnd.random() < .6, disableExact=rnd.random() < .4, inverse=inv)
-        cases.append(gen.case("%s%d" % (prefix, i), T, **cfg))
+        cases.append(via_channel(rnd, gen.case("%s%d" % (prefix, i), T, **cfg), T, p=.25))
     return cases
 
 
@@ -259,6 +270,7 @@ def check_c01(out, tier):
             cfg.update(mode="classes", targets=[M.EX + "A"])
         inc.append(gen.case("c01i%d" % i, gen.incoming_graph(rnd), **cfg))
     run_and_judge(out, inc, ["C01"], mine, label="incoming links from typed / untyped, IRI / blank-node subjects")
+    run_and_judge(out, [gen.hub_case(rnd, "c01h%d" % i) for i in range(3 * k)], ["C01"], mine, label="one instance with > 1000 values / incoming arcs")
     pinned_cases(out, "C01", ["C01"], mine)
     from harness import suite_traces, simulate
     simulate.replay(out, L2_BEHAVIOURS[tier], ["C01"], mine)
@@ -284,6 +296,15 @@ def check_c02(out, tier):
     run_and_judge(out, wide, ["C02"], mine, label="wide class, threshold exactly k/n")
     run_and_judge(out, [gen.chain_case(rnd, "c02k%d" % i) for i in range(30 * k)], ["C02"], mine, label="removal cascades")
     run_and_judge(out, [gen.fan_case(rnd, "c02f%d" % i) for i in range(30 * k)], ["C02"], mine, label="several shapes emptied in one round")
+    run_and_judge(out, [gen.hub_case(rnd, "c02h%d" % i) for i in range(4 * k)], ["C02"], mine, label="one instance with > 1000 values / incoming arcs")
+    inc = []
+    for i in range(30 * k):
+        cfg = gen.switches(rnd, inverse=True)
+        cfg["thr"] = rnd.choice([[1, 3], [1, 2], [51, 100], [2, 3], [1, 1]])
+        if rnd.random() < .4:
+            cfg.update(mode="classes", targets=[M.EX + "A"])
+        inc.append(gen.case("c02i%d" % i, gen.incoming_graph(rnd), **cfg))
+    run_and_judge(out, inc, ["C02"], mine, label="incoming links to IRI / blank-node instances from typed / untyped subjects")
     pinned_cases(out, "C02", ["C02"], mine)
     from harness import simulate
     simulate.replay(out, L2_BEHAVIOURS[tier], ["C02"], mine)
